@@ -198,7 +198,7 @@ func unzipSafely(zipBytes []byte, declared map[string]uint64) (extracted map[str
 
 func checkC15(r *kit.Run) {
 	r.Assumptions = []string{
-		"entries: the 26-entry alphabet of ModZip.tla (one path per rule of the package documentation / CheckFilePath); archives = subsets of <= MaxEntries entries; oversize entries (16 MiB + 1) only in the thorough tier",
+		"entries: the 27-entry alphabet of ModZip.tla (one path per rule of the package documentation / CheckFilePath); archives = subsets of <= MaxEntries entries; oversize entries (16 MiB + 1) only in the thorough tier",
 		"CheckDir is exercised only for archives whose paths can exist in a Linux directory",
 		"for a pair of colliding names the model only says that at least one of the two is rejected",
 	}
